@@ -1,6 +1,7 @@
 package main
 
 import (
+	"bytes"
 	"encoding/json"
 	"fmt"
 	"io"
@@ -21,6 +22,7 @@ type kaStep struct {
 	Fed    bool   `json:"fed"`
 	Prior  string `json:"prior"`
 	Hold   int    `json:"hold"`
+	Deaf   bool   `json:"deaf"`
 }
 
 // runKeepAlive executes one client schedule against a fresh broker with KeepAlive = k seconds.
@@ -65,6 +67,7 @@ func runKeepAlive(steps []kaStep, k, req int, unit time.Duration) string {
 	}
 	// a fed client is subscribed to a topic the witness connection publishes on every 0.3 K, for as long as the schedule runs
 	fed := len(steps) > 0 && steps[0].Fed
+	deaf := len(steps) > 0 && steps[0].Deaf
 	stopFeed := make(chan struct{})
 	defer close(stopFeed)
 	if fed {
@@ -72,7 +75,25 @@ func runKeepAlive(steps []kaStep, k, req int, unit time.Duration) string {
 		if p, err := readPkt(m.c, r.tmo); err != nil || p.first != 0x90 {
 			return fmt.Sprintf("the client connected with keep-alive %d s and sent a SUBSCRIBE right away, but got no SUBACK (%v): the connection was dropped while the client was active", k, err)
 		}
+		// the feeder is a connection of its own (its deliveries may get stuck on a client that does not read)
+		fd, err := r.rawConnect("f", bAct{K: "kafeed", Clean: true, Ka: 600})
+		if err != nil {
+			return "INFRA feeder connect: " + err.Error()
+		}
 		go func() {
+			feed := func(n int) bool {
+				fd.c.SetWriteDeadline(time.Now().Add(time.Second))
+				_, err := fd.c.Write(pkt(0x30, append(lp([]byte("ka/feed")), bytes.Repeat([]byte{'f'}, n)...)))
+				return err == nil
+			}
+			if deaf {
+				// more than the client's outgoing ring of 16 KiB holds, at once: the feeder's delivery blocks on it
+				for i := 0; i < 24; i++ {
+					if !feed(1024) {
+						return
+					}
+				}
+			}
 			tick := time.NewTicker(3 * unit)
 			defer tick.Stop()
 			for {
@@ -80,8 +101,7 @@ func runKeepAlive(steps []kaStep, k, req int, unit time.Duration) string {
 				case <-stopFeed:
 					return
 				case <-tick.C:
-					wit.c.SetWriteDeadline(time.Now().Add(time.Second))
-					if _, err := wit.c.Write(pkt(0x30, append(lp([]byte("ka/feed")), 'f'))); err != nil {
+					if !feed(1) {
 						return
 					}
 				}
@@ -93,7 +113,28 @@ func runKeepAlive(steps []kaStep, k, req int, unit time.Duration) string {
 	var closedAt time.Time
 	pongs := 0
 	paused := false // the client does not read for a while (kind "backlog")
+	willSeen := false
+	if deaf {
+		// a deaf client's connection is not read: its end is observed through its will arriving at the witness
+		go func() {
+			for {
+				p, err := readPkt(wit.c, time.Hour)
+				if err != nil {
+					return
+				}
+				if p.first>>4 == 3 && strings.Contains(string(p.body), "will/ka") {
+					mu.Lock()
+					closedAt, willSeen = time.Now(), true
+					mu.Unlock()
+					return
+				}
+			}
+		}()
+	}
 	go func() {
+		if deaf {
+			return
+		}
 		for {
 			for {
 				mu.Lock()
@@ -170,7 +211,9 @@ func runKeepAlive(steps []kaStep, k, req int, unit time.Duration) string {
 			}
 			if st.Kind == "ping" {
 				_, err = m.c.Write([]byte{0xc0, 0})
-				wantPongs++
+				if !deaf {
+					wantPongs++
+				}
 			} else if st.Kind == "part1" {
 				_, err = m.c.Write([]byte{0xc0}) // the first byte of a PINGREQ, and nothing more
 			} else if st.Kind == "partbig" {
@@ -193,6 +236,14 @@ func runKeepAlive(steps []kaStep, k, req int, unit time.Duration) string {
 				return fmt.Sprintf("step %d: write failed although the client was active: %v", i, err)
 			}
 			lastSend = time.Now()
+		case "stalled":
+			// the specification's named deviation DevStalledReceiver: the implementation as it is does not drop this
+			// client; one that does is not wrong
+			if ca.IsZero() {
+				return fmt.Sprintf("KNOWN stalled-receiver step %d: the client was silent for %v (%.1f x KeepAlive %ds) and the connection is still open", i,
+					time.Duration(st.Gap)*unit, float64(st.Gap)/10, k)
+			}
+			return ""
 		case "dropped":
 			if ca.IsZero() {
 				return fmt.Sprintf("step %d: the client was silent for %v (%.1f x KeepAlive %ds) and the connection is still open", i,
@@ -200,6 +251,24 @@ func runKeepAlive(steps []kaStep, k, req int, unit time.Duration) string {
 			}
 			if d := ca.Sub(lastSend); d < time.Duration(k)*time.Second && !sawBig {
 				return fmt.Sprintf("step %d: connection closed only %v after the last packet (KeepAlive %ds)", i, d.Round(10*time.Millisecond), k)
+			}
+			if deaf {
+				mu.Lock()
+				ws := willSeen
+				mu.Unlock()
+				if !ws {
+					return fmt.Sprintf("step %d: keep-alive expiry without the will being published", i)
+				}
+				// and the connection is closed: reading what was never read ends with end-of-stream, not with a time-out
+				for {
+					if _, err := readPkt(m.c, 2*time.Second); err != nil {
+						if ne, ok := err.(net.Error); ok && ne.Timeout() {
+							return fmt.Sprintf("step %d: the will was published but the connection of the silent client is still open", i)
+						}
+						break
+					}
+				}
+				return ""
 			}
 			// abnormal end: the will reaches the witness
 			p, err := readPkt(wit.c, 2*time.Second)
@@ -286,6 +355,8 @@ func cmdKeepAlive(a Args) {
 			} else if strings.HasPrefix(d, "INFRA") {
 				res.Notes = append(res.Notes, d)
 				res.Counts["infra"]++
+			} else if strings.HasPrefix(d, "KNOWN stalled-receiver ") {
+				res.mismatch(Mismatch{What: strings.TrimPrefix(d, "KNOWN stalled-receiver "), Known: "stalled-receiver", Tag: "C19", Replay: map[string]interface{}{"keepalive_s": k, "connect_keepalive": req, "unit_ms": unit.Milliseconds(), "schedule": s}})
 			} else if d != "" {
 				res.mismatch(Mismatch{What: d, Tag: "C19", Replay: map[string]interface{}{"keepalive_s": k, "connect_keepalive": req, "unit_ms": unit.Milliseconds(), "schedule": s}})
 			}
